@@ -216,9 +216,13 @@ def run(repo):
     s += "/-- initial `last_tick` of `DemoWriter::new` -/\ndef initial_last_tick : Int := %s\n\n" % m.group(1)
 
     body = exlib.fn_body(src, "write_msg", 0, rel)
-    s += "/-- does `write_snap` / `write_msg` clear its packing buffer on entry? -/\n"
-    s += "def write_snap_clears_on_entry : Bool := %s\n" % ("true" if re.search(r"\{\s*self\.buf\.clear\(\);", exlib.fn_body(src, "write_snap", 0, rel).replace("\n", " ")) or re.search(r"self\.buf\.clear\(\);[^;]*let result", exlib.fn_body(src, "write_snap", 0, rel), flags=re.S) else "false")
+    s += "/-- does `write_msg` clear its packing buffer on entry? -/\n"
     s += "def write_msg_clears_on_entry : Bool := %s\n\n" % ("true" if re.match(r"\{\s*self\.buf\.clear\(\);", body) else "false")
+    wb = exlib.fn_body(src, "write_snap", 0, rel)
+    marks = [("clear", "self.buf.clear()"), ("pack", "with_packer("), ("tick", "self.inner.write_tick("), ("data", "self.inner.write_snapshot")]
+    order = sorted((wb.find(tok), name) for name, tok in marks if wb.find(tok) >= 0)
+    s += "/-- first occurrences, in source order, of: clearing the buffer, packing the snap, writing the tick marker, writing the data chunk in `write_snap` -/\n"
+    s += "def write_snap_order : List String := [%s]\n\n" % ", ".join('"%s"' % n for _, n in order)
     body = exlib.fn_body(src, "write_snap", 0, rel)
     s += "/-- which snapshot does `write_snap` recycle into the next builder? -/\n"
     mm = re.findall(r"self\.builder\s*=\s*([^;]*);", body)
